@@ -52,7 +52,7 @@ def record(bindir, seed, ops, workdir, profile="crash", name="mem.mv2", extra_en
     if unsupported:
         raise C.Inconclusive(f"recorder met an event it cannot model: {unsupported[:3]}")
     real_d = os.path.realpath(d)
-    return {"dir": real_d, "target": os.path.join(real_d, name), "events": events, "states": st["states"], "history": st["history"],
+    return {"dir": real_d, "target": os.path.join(real_d, name), "events": events, "states": st["states"], "history": st["history"], "edge_ops": st.get("edge_ops", []),
             "final_bytes": open(os.path.join(d, name), "rb").read() if os.path.exists(os.path.join(d, name)) else None, "seed": seed}
 
 
@@ -98,7 +98,7 @@ def annotate(events):
     return events
 
 
-def process_crash_images(rec, limit=None, rng=None):
+def process_crash_images(rec, limit=None, rng=None, keep_ops=()):
     """Process-crash model: state after each mutating event (completed syscalls persist).
     Returns list of dict(k, bytes, ctx) de-duplicated by image content + allowed states."""
     fs = iolog.FS()
@@ -122,7 +122,7 @@ def process_crash_images(rec, limit=None, rng=None):
     if limit and len(out) > limit:
         rng = rng or random.Random(0)
         # keep every operation boundary and a uniform sample of the interior points
-        keep = [i for i, x in enumerate(out) if not x["ctx"]["inside"]]
+        keep = [i for i, x in enumerate(out) if not x["ctx"]["inside"] or x["ctx"]["op_index"] in keep_ops]
         rest = [i for i in range(len(out)) if i not in set(keep)]
         rng.shuffle(rest)
         chosen = sorted(set(keep + rest[:max(0, limit - len(keep))]))
@@ -241,12 +241,17 @@ def judge(obs, ctx, states):
     # a multi-record put that is only partly visible: more than the old state, less than the new one
     if ctx["inside"] and len(allowed) == 2 and len(allowed[0]) < len(od) <= len(allowed[1]) and results[1] and results[1][0] in ("content-unreadable", "content-differs"):
         return ("partial-put", results[1][1])
+    # report against the allowed state with the same number of documents, if there is one: an image that shows the old state with
+    # one damaged document is "content unreadable", not "the in-flight operation's document is missing"
+    for a, r in zip(allowed, results):
+        if len(a) == len(od):
+            return r
     return results[-1]
 
 
 # ---------------------------------------------------------------------------------- power loss
 
-def power_loss_images(rec, rng, per_point=12, max_points=None):
+def power_loss_images(rec, rng, per_point=12, max_points=None, keep_ops=()):
     """Power-loss model. Per inode: durable content as of its last fsync plus the ordered list of
     un-synced writes/truncates; per directory: names as of the last directory fsync plus pending
     name operations. At a crash point a fault choice selects which un-synced events survive.
@@ -281,7 +286,11 @@ def power_loss_images(rec, rng, per_point=12, max_points=None):
         boundary = [p for p in points if not p[1]["inside"]]
         interior = [p for p in points if p[1]["inside"]]
         rng.shuffle(interior)
-        points = sorted(boundary[:max_points // 2] + interior[:max_points - min(len(boundary), max_points // 2)], key=lambda p: p[0])
+        # crash points of the operations the history was steered towards (keep_ops) are never sampled away
+        kept = [p for p in points if p[1]["op_index"] in keep_ops]
+        interior = [p for p in interior if p[1]["op_index"] not in keep_ops]
+        boundary = [p for p in boundary if p[1]["op_index"] not in keep_ops]
+        points = sorted(kept + boundary[:max_points // 2] + interior[:max_points - min(len(boundary), max_points // 2)], key=lambda p: p[0])
     seen = set()
     for k, ctx, uns, dur, dnames, pnames in points:
         # which inode does the target name reach, for every surviving prefix of the pending name ops
